@@ -1,5 +1,6 @@
 pub mod canon;
 pub mod fast;
+pub mod fromsym;
 pub mod tt;
 pub mod dotread;
 pub mod table;
